@@ -946,7 +946,7 @@ class Engine:
                         if k.arg in con.mutates:
                             note(k.value)
                     for p in con.params:
-                        if p.startswith('$'):
+                        if p.startswith('$') and p != '$quit':
                             res.add((p,))
                     if 'self' in con.params and con.self_modifies and isinstance(n.func, ast.Attribute):
                         for fld in con.self_modifies:
@@ -1078,7 +1078,8 @@ class Engine:
             if tgt.id in fc.con.locals:
                 shp = fc.con.locals[tgt.id]
                 try:
-                    v = unbox(box(v, shp), shp)
+                    if not isinstance(shp, ObjShape):
+                        v = unbox(box(v, shp), shp)
                 except Unsupported:
                     pass    # e.g. a record that has since gained a key: keep the python-level value
             st.env[tgt.id] = v
